@@ -131,6 +131,104 @@ def _cfg_variant(cfg, h):
     return out
 
 
+# ---------------------------------------------------------------------------
+# One result per point: callables that are not pure functions of their argument
+# ---------------------------------------------------------------------------
+N_IMPURE = {"quick": 40, "thorough": 400}
+
+
+def _impure_case(res, scratch, ci, n, pat, slots, scoped):
+    """Update with callables whose result differs from call to call (a sequence number). Every selected point must carry
+    the result of a call made with ITS old value, and no result may be applied to two points. Extra calls (a validation
+    pass, say) and any calling order are allowed: only the use of the results is judged."""
+    from datetime import datetime, timedelta, timezone
+
+    from tinyflux import Point, TagQuery, TinyFlux
+    from tinyflux.storages import MemoryStorage
+
+    cfg = CONFIGS[ci]
+    path = scratch.new_db_path() if cfg["storage"] == "csv" else None
+    db = TinyFlux(path, auto_index=cfg["auto_index"]) if path else TinyFlux(storage=MemoryStorage, auto_index=cfg["auto_index"])
+    t0 = datetime(2021, 3, 4, 5, 6, 7, tzinfo=timezone.utc)
+    orig = []
+    for i in range(n):
+        bits = (pat >> (2 * i)) & 3
+        o = {"t": t0 + timedelta(seconds=i), "m": "ma" if (pat >> (i + 7)) & 1 else "mb",
+             "tags": {"g": "x" if bits & 1 else "y", "room": "r1" if bits & 2 else "r2"},
+             "fields": {"v": float(bits & 2), "w": 1.0}}
+        orig.append(o)
+        db.insert(Point(time=o["t"], measurement=o["m"], tags=dict(o["tags"]), fields=dict(o["fields"])))
+    calls = {k: [] for k in slots}
+    counter = [0]
+
+    def mk(slot):
+        def fn(old):
+            counter[0] += 1
+            k_ = counter[0]
+            new = {"tags": lambda: {"seq": "s%d" % k_}, "fields": lambda: {"seq": float(k_)},
+                   "measurement": lambda: "r%d" % k_, "time": lambda: old + timedelta(microseconds=k_)}[slot]()
+            calls[slot].append((dict(old) if isinstance(old, dict) else old, new))
+            return new
+        return fn
+
+    kw = {k: mk(k) for k in slots}
+    if scoped == "all":
+        sel = list(range(n))
+        ret = db.update_all(**kw)
+    else:
+        sel = [i for i, o in enumerate(orig) if o["tags"]["g"] == "x"]
+        ret = db.update(TagQuery().g == "x", **kw)
+    res.count("impure_update_cases")
+    res.count("impure_update_calls", sum(len(v) for v in calls.values()))
+    detail = {"config": cfg_name(cfg), "n": n, "pattern": pat, "slots": list(slots), "scope": scoped}
+    rep = {"battery": "one-result-per-point", "ci": ci, "n": n, "pat": pat, "slots": list(slots), "scoped": scoped}
+    reads = [("live", list(db.all(sorted=False)))]
+    if path:
+        db.close()
+        db = TinyFlux(path, auto_index=cfg["auto_index"])
+        reads.append(("reopened", list(db.all(sorted=False))))
+    db.close()
+    bad = None
+    if ret != len(sel):
+        bad = ("update-wrong-count", {"returned": ret, "selected": len(sel)})
+    for where, pts in reads:
+        if bad:
+            break
+        if len(pts) != n:
+            bad = ("update-changes-number-of-points", {"where": where, "stored": len(pts)})
+            break
+        used = {k: [] for k in slots}
+        for i, (o, p_) in enumerate(zip(orig, pts)):
+            got = {"time": p_.time, "measurement": p_.measurement, "tags": dict(p_.tags), "fields": dict(p_.fields)}
+            old = {"time": o["t"], "measurement": o["m"], "tags": o["tags"], "fields": o["fields"]}
+            for k in ("time", "measurement", "tags", "fields"):
+                if i not in sel or k not in slots:
+                    if got[k] != old[k]:
+                        bad = ("update-touches-what-was-not-selected", {"where": where, "point": i, "slot": k, "got": repr(got[k]), "expected": repr(old[k])})
+                    continue
+                cands = [new for (arg, new) in calls[k] if arg == old[k]]
+                hit = [new for new in cands if got[k] == ({**old[k], **new} if isinstance(new, dict) else new)]
+                if not hit:
+                    bad = ("update-result-not-from-a-call-with-the-points-old-value", {"where": where, "point": i, "slot": k, "got": repr(got[k]), "results_for_this_old_value": repr(cands)})
+                else:
+                    used[k].append(repr(hit[0]))
+            if bad:
+                break
+        for k in slots:
+            if not bad and len(set(used[k])) != len(used[k]):
+                bad = ("one-callable-result-applied-to-several-points", {"where": where, "slot": k, "results_used": used[k]})
+        res.count("impure_update_points_checked", len(pts))
+    if bad:
+        res.violate(Violation("C03", bad[0], dict(detail, **bad[1]), replay=rep, features={"cfg": cfg_name(cfg)}))
+
+
+def _impure_battery(res, tier, seed, shard, scratch):
+    rng = rng_for("C03", tier, seed, shard, 99, 0)
+    for _ in range(N_IMPURE[tier]):
+        slots = tuple(k for k in ("time", "measurement", "tags", "fields") if rng.random() < 0.45) or ("tags",)
+        _impure_case(res, scratch, rng.randrange(len(CONFIGS)), rng.choice([2, 3, 5, 8]), rng.getrandbits(16), slots, rng.choice(["all", "query"]))
+
+
 def run(res, tier, seed, shard, nshards):
     contracts.install()
     res.rule = (
@@ -155,6 +253,7 @@ def run(res, tier, seed, shard, nshards):
                 s = Runner(res, cfgv, scratch, rng, prof, judge).run()
                 if h == 0 and shard == 0 and ci in (1, 2):
                     res.sample({"config": cfg_name(cfg), "first_ops": s.log[:5]})
+        _impure_battery(res, tier, seed, shard, scratch)
     for b in contracts.drain(res):
         res.violate(Violation("C03", "find-helper-contract", {"what": b}, replay={"what": list(b)}))
     for cfg in CONFIGS:
@@ -168,13 +267,18 @@ def run(res, tier, seed, shard, nshards):
     res.require("unselected_rows_compared")
     res.require("later_reads")
     res.require("histories_big")
+    res.require("impure_update_points_checked")
     res.assumptions += [
         "static falsy arguments ('' / {}) are not generated except the all-empty call (documented ValueError)",
-        "updater callables come from a fixed deterministic registry; <= 12 rows; process TZ = UTC",
+        "updater callables come from a fixed deterministic registry (plus the sequence-number callables of the one-result-per-point pass); <= 12 rows; process TZ = UTC",
     ]
 
 
 def replay(res, rep):
     r = rep["replay"]
+    if r.get("battery") == "one-result-per-point":
+        with Scratch("c03r") as scratch:
+            _impure_case(res, scratch, r["ci"], r["n"], r["pat"], tuple(r["slots"]), r["scoped"])
+        return
     with Scratch("c03r") as scratch:
         replay_ops(res, r["cfg"], r["ops"], scratch, make_judge(res), Runner)
